@@ -47,7 +47,7 @@ NOT_DECIDED = ("*++b1",)     # backspace-skipping scans: while(--n1 > 0 && *++b1
 
 def run(rep, ctx):
     repo = ctx["repo"]
-    fn = [SR2 + r"::.*", r"mp::Lget", r"mp::decstring", r"mp::Read", r"mp::[a-z_0-9]+", r"mp::VecReader::.*",
+    fn = [SR2 + r"::.*", r"mp::Lget", r"mp::decstring", r"mp::Read", r"mp::[A-Za-z_0-9]+", r"mp::VecReader::.*",
           r"mp::SuffixReader::.*"]
     jobs = [dict(unit="nl-writer2/src/nl-solver.cc", fn=fn, repo=repo,
                  rec=[r"mp::SufHead", r"mp::SufRead", SR2])]
@@ -114,9 +114,30 @@ def run(rep, ctx):
                                    init=(Env() if g is rsf else inv), partition=PART)
     for g in funcs:
         if g.id not in analyses and (g.name in ("Read", "decstring", "ReadNext") or (g.qn.startswith(SR2) and easy(g))):
+            init_ = inv
+            if g.qn.endswith("(lambda)::operator()"):
+                # a local lambda of one of the three readers: its integer parameters range over the values passed at the
+                # call sites (join of the argument intervals there)
+                init_ = inv.copy() if hasattr(inv, "copy") else inv
+                for owner in (rsf, gsr, bsr):
+                    if not g.qn.startswith(owner.qn + "::"):
+                        continue
+                    A0 = analyses[owner.id]
+                    for c_ in owner.walk():
+                        if c_["k"] == "CXXOperatorCallExpr" and c_.get("op") == "()" and c_.get("calleeId") == g.id:
+                            env0 = A0.env_before(c_)
+                            if env0 is None:
+                                continue
+                            for p_, a_ in zip(g.params, call_args(c_)[1:]):
+                                if int_type(p_.get("ct")):
+                                    iv_ = A0.ev(a_, env0)
+                                    if __import__("os").environ.get("MPSA_DEBUG"):
+                                        print("SITE", c_.get("l"), iv_, render(a_))
+                                    cur_ = init_.iv.get(p_["declId"])
+                                    init_.iv[p_["declId"]] = iv_ if cur_ is None else hull(cur_, iv_)
             try:
                 analyses[g.id] = Intervals(F, g, summaries=summaries, member_havoc_calls=own_nonconst_call,
-                                           init=inv)
+                                           init=init_)
             except Exception as e:          # helper outside the fragment: not an obligation carrier
                 pass
 
